@@ -23,6 +23,36 @@ var allocMembershipHelpers = map[string]string{
 	"renamer.(*numberScope).findNameUse": "renamer.numberScope.nameCounts",
 }
 
+// allocation records confirmed by reading (each is added to by the allocator that consults it)
+var allocKnownUsedSets = map[string]bool{
+	"renamer.ExportRenamer.used":     true,
+	"renamer.numberScope.nameCounts": true,
+}
+
+var writtenSetsCache = map[*Prog]map[string]bool{}
+
+// writtenSets: identities of string-keyed maps that some function of the module stores a
+// non-constant key into.
+func writtenSets(p *Prog) map[string]bool {
+	if m, ok := writtenSetsCache[p]; ok {
+		return m
+	}
+	m := map[string]bool{}
+	for _, fn := range p.ModuleFuncs() {
+		eachInstr(fn, func(_ *ssa.BasicBlock, in ssa.Instruction) {
+			if mu, ok := in.(*ssa.MapUpdate); ok {
+				if _, isConst := mu.Key.(*ssa.Const); !isConst {
+					if id := mapIdentity(mu.Map); id != "" {
+						m[id] = true
+					}
+				}
+			}
+		})
+	}
+	writtenSetsCache[p] = m
+	return m
+}
+
 type allocFunc struct {
 	fn  *ssa.Function
 	m   string // description of the map
@@ -151,6 +181,13 @@ func checkAllocators(p *Prog, r *RuleResult, pkgs map[string]bool) int {
 		}
 		var ids []string
 		for id := range maps {
+			// a set nobody in the module ever adds a name to is a fixed blacklist (reserved words), not
+			// the allocator's record of what it handed out: filtering candidates against it creates no
+			// obligation to record them. The sets confirmed as allocation records on today's tree stay
+			// obligations even if their last update is deleted.
+			if !allocKnownUsedSets[id] && !writtenSets(p)[id] {
+				continue
+			}
 			ids = append(ids, id)
 		}
 		sort.Strings(ids)
